@@ -432,6 +432,7 @@ def run_ascii(ctx):
 
 # =========================================================================== blueprints
 SPECS = ["A1", "B2", "C3"]
+ANCHOR_KEYS = ("id", "od", "ip", "op", "mult", "lengthInner", "lengthOuter", "widthInner", "widthOuter")
 KINDS_BAD = ["unknown-specifier", "unequal-heights", "unequal-xs", "unequal-mesh", "unequal-matmod", "cyclic-link",
              "unknown-link-target", "overlapping-solids", "solids-exceed-block", "duplicate-component", "duplicate-block-name",
              "duplicate-specifier", "duplicate-grid-location", "conflicting-mult",
@@ -454,7 +455,7 @@ NUCLIDE_FLAGS = """nuclide flags:
 """
 
 
-def gen_doc(rng, geom=None, force_pin=None):
+def gen_doc(rng, geom=None, force_pin=None, cart_force=None):
     """A random well-formed blueprint document as a plain structure (rendered to YAML by to_yaml)."""
     geom = geom or rng.choice(["hex", "hex", "hex_corners_up", "cartesian"])
     cart = geom == "cartesian"
@@ -465,6 +466,7 @@ def gen_doc(rng, geom=None, force_pin=None):
     ip = rng.randint(1200, 1600) / 100.0
     op = ip + rng.randint(30, 80) / 100.0
     has_inter = rng.random() < 0.5
+    anchors = rng.random() < 0.35
     duct_tin = rng.choice([20.0, 25.0])
     duct_thot = rng.choice([duct_tin, 450.0])      # blocks of an assembly must have equal (hot) areas
     for bi in range(nbd):
@@ -475,17 +477,21 @@ def gen_doc(rng, geom=None, force_pin=None):
         npins = rng.choice([1, 7, 19, 37, 61])
         fod = rng.randint(40, 80) / 100.0
         gap = rng.randint(0, 5) / 100.0
+        if anchors and rng.random() < 0.5:
+            gap = 0.0          # fuel.od == bond.id == bond.od == clad.id: one anchor reused three times
         cth = rng.randint(3, 8) / 100.0
         tin = rng.choice([20.0, 25.0])
         comps = {}
         comps["fuel"] = dict(shape="Circle", material=rng.choice(["UZr", "UZr", "HT9"]), Tinput=tin,
                              Thot=rng.choice([tin, 400.0, 600.0]), id=0.0, od=fod, mult=float(npins))
-        link_bond = rng.random() < 0.7
+        link_bond = rng.random() < 0.7 and not anchors
         cid = round(fod + 2 * gap, 4)
         comps["bond"] = dict(shape="Circle", material="Sodium", Tinput=450.0, Thot=450.0,
                              id=("fuel.od" if link_bond else fod), od=("clad.id" if link_bond else cid), mult="fuel.mult")
         comps["clad"] = dict(shape="Circle", material="HT9", Tinput=tin, Thot=rng.choice([tin, 450.0]),
                              id=cid, od=round(cid + 2 * cth, 4), mult=("bond.mult" if rng.random() < 0.3 else "fuel.mult"))
+        if anchors:
+            comps["bond"]["mult"] = comps["clad"]["mult"] = float(npins)     # rendered as aliases of the fuel's anchor
         comps["coolant"] = dict(shape="DerivedShape", material="Sodium", Tinput=450.0, Thot=450.0)
         if cart:
             comps["duct"] = dict(shape="Rectangle", material="HT9", Tinput=duct_tin, Thot=duct_thot,
@@ -555,12 +561,22 @@ def gen_doc(rng, geom=None, force_pin=None):
         assems[f"assem_{ai}"] = a
     specs = [a["specifier"] for a in assems.values()]
     symmetry = "full"
+    cart_shape = None
     if cart:
-        n = rng.randint(1, 4)
-        m = rng.randint(1, 4)
-        cells = [(i, j) for i in range(n) for j in range(m)]
+        n = rng.randint(1, 6)
+        m = rng.randint(1, 6)
+        # a completely blank EDGE column or row of placeholders (the centring offset comes from the whole text's extent)
+        blank = rng.choice([None, "left", "right", "top", "bottom"])
+        if cart_force:
+            n, m, blank = cart_force
+        if blank in ("left", "right") and n < 2 or blank in ("top", "bottom") and m < 2:
+            blank = None
+        dropped = {"left": lambda c: c[0] == 0, "right": lambda c: c[0] == n - 1, "bottom": lambda c: c[1] == 0,
+                   "top": lambda c: c[1] == m - 1}.get(blank, lambda c: False)
+        cells = [(i, j) for i in range(n) for j in range(m) if not dropped((i, j))]
         contents = {c: rng.choice(specs) for c in cells}
         use_map = True
+        cart_shape = (n, m, blank)
     else:
         rings = rng.randint(0, 3)
         if geom == "hex" and rng.random() < 0.35:
@@ -572,7 +588,7 @@ def gen_doc(rng, geom=None, force_pin=None):
         contents = {c: rng.choice(specs) for c in cells if (c == (0, 0) or rng.random() >= p)}
         use_map = rng.random() < 0.6
     return dict(blocks=blocks, assems=assems, contents=contents, geom=geom, symmetry=symmetry, use_map=use_map,
-                pingrids=pingrids, blockgrid=blockgrid, blockflags=blockflags)
+                pingrids=pingrids, blockgrid=blockgrid, blockflags=blockflags, cart_shape=cart_shape, anchors=anchors)
 
 
 def map_kind(doc):
@@ -590,6 +606,10 @@ def lattice_text(doc):
     if kind == "tips" and doc["symmetry"] != "full":
         return None
     contents = doc["contents"]
+    if kind == "cart" and doc.get("cart_shape"):
+        # written out by hand, top row first, placeholders where the map is blank
+        n, m, _blank = doc["cart_shape"]
+        return "\n".join(" ".join(contents.get((i, j), "-") for i in range(n)) for j in reversed(range(m))) + "\n"
     ans, text, back = impl_write(kind, contents)
     if text is None or back is None or data_of(back) != contents:
         return None
@@ -606,10 +626,20 @@ def to_yaml(doc, text_map=None, mutate=None):
             out.append(f"        grid name: {doc['blockgrid'][bn]}")
         if bn in doc.get("blockflags", {}):
             out.append(f"        flags: {doc['blockflags'][bn]}")
+        table = {}
         for cn, c in comps.items():
             out.append(f"        {cn}:")
             for k, v in c.items():
-                out.append(f"            {k}: {v}")
+                if doc.get("anchors") and k in ANCHOR_KEYS and isinstance(v, (int, float)) and not isinstance(v, bool):
+                    # YAML anchors / aliases on dimensions and mult: first use defines, equal values later refer to it
+                    key = repr(float(v))
+                    if key in table:
+                        out.append(f"            {k}: *{table[key]}")
+                    else:
+                        table[key] = f"b{bi}n{len(table)}"
+                        out.append(f"            {k}: &{table[key]} {v}")
+                else:
+                    out.append(f"            {k}: {v}")
             if mutate == "duplicate-component" and cn == "clad":
                 out.append(f"        {cn}:")
                 for k, v in c.items():
@@ -633,9 +663,31 @@ def to_yaml(doc, text_map=None, mutate=None):
         out.append(f"    {an}:")
         out.append(f"        specifier: {a['specifier']}")
         out.append("        blocks: [" + ", ".join(f"*blk{idx[b]}" for b in a["blocks"]) + "]")
-        out.append(f"        height: {a['height']}")
+        if doc.get("anchors") and mutate is None:
+            first_a = an == list(doc["assems"])[0]
+            if first_a:
+                seen, items = {}, []
+                for h in a["height"]:
+                    if repr(h) in seen:
+                        items.append(f"*{seen[repr(h)]}")
+                    else:
+                        seen[repr(h)] = f"h{len(seen)}"
+                        items.append(f"&{seen[repr(h)]} {h}")
+                out.append("        height: &hts [" + ", ".join(items) + "]")
+            else:
+                out.append("        height: *hts")          # the whole list by alias
+            seenx, itemsx = {}, []
+            for x in a["xs"]:
+                if x in seenx:
+                    itemsx.append(f"*{seenx[x]}")
+                else:
+                    seenx[x] = f"x{an[-1]}{len(seenx)}"
+                    itemsx.append(f"&{seenx[x]} {x}")
+            out.append("        xs types: [" + ", ".join(itemsx) + "]")
+        else:
+            out.append(f"        height: {a['height']}")
+            out.append(f"        xs types: {a['xs']}")
         out.append(f"        axial mesh points: {a['mesh']}")
-        out.append(f"        xs types: {a['xs']}")
         mm = a.get("matmods")
         if mm:
             out.append("        material modifications:")
@@ -1000,19 +1052,14 @@ def independent_contents(ctx, doc, text_map, A):
         return dict(doc["contents"])
     kind = map_kind(doc)
     lines = [l.split() for l in text_map.strip().splitlines()]
-    out = lean_run("AsciiMap", [f"read {kind} {show_lines(lines)}"])[0]
+    full = "T" if doc["symmetry"] == "full" else "F"
+    out = lean_run("AsciiMap", [f"gridcontents {kind} {full} {show_lines(lines)}"])[0]
     if out == "reject":
         return None
-    lab = out.split(" ")[0][len("labels=["):-1]
     cells = {}
-    for item in lab.split(","):
+    for item in [x for x in out.strip("[]").split(",") if x]:
         i, j, t = item.split(":")
-        if t != "-":
-            cells[(int(i), int(j))] = t
-    if kind == "cart" and doc["symmetry"] == "full":
-        nx = max(i for i, _ in cells) - min(i for i, _ in cells) + 1
-        ny = max(j for _, j in cells) - min(j for _, j in cells) + 1
-        cells = {(i + int(-nx / 2), j + int(-ny / 2)): t for (i, j), t in cells.items()}
+        cells[(int(i), int(j))] = t
     return cells
 
 
@@ -1024,7 +1071,10 @@ def run_blueprints(ctx):
         for t in range(ctx.pick(22, 300)):
             # every fifth document is a hex core whose first block has a pin lattice given as an explicit list with
             # integer specifiers, every fifth one as a text map
-            doc = gen_doc(rng, "hex", "int-list") if t % 5 == 1 else gen_doc(rng, "hex", "map") if t % 5 == 3 else gen_doc(rng)
+            # every fifth one is a full Cartesian map with a blank edge on an EVEN-sized axis (4x4 left, 6x3 right, 3x4 top, 5x2 bottom)
+            forced = [(4, 4, "left"), (6, 3, "right"), (3, 4, "top"), (5, 2, "bottom"), (2, 2, "left"), (4, 3, "right")]
+            doc = gen_doc(rng, "hex", "int-list") if t % 5 == 1 else gen_doc(rng, "hex", "map") if t % 5 == 3 else \
+                gen_doc(rng, "cartesian", cart_force=forced[(t // 5) % len(forced)]) if t % 5 == 2 else gen_doc(rng)
             if t % 5 in (1, 3):
                 first = list(doc["blocks"])[0]
                 for a in doc["assems"].values():
@@ -1050,6 +1100,10 @@ def run_blueprints(ctx):
                 continue
             n_ok += 1
             ctx.count(f"documents built ({doc['geom']}, {doc['symmetry']}, {'lattice map' if text_map else 'grid contents'})")
+            if doc.get("anchors"):
+                ctx.count("documents with YAML anchors / aliases on dimensions, mult, heights, xs types")
+            if doc.get("cart_shape") and doc["cart_shape"][2]:
+                ctx.count(f"Cartesian maps with a blank {doc['cart_shape'][2]} edge ({doc['cart_shape'][0]}x{doc['cart_shape'][1]})")
             check_reactor(ctx, doc, r, contents, tag, B)
             # determinism: building the same text again gives the same reactor (by the same reading)
             if t % 5 == 0:
@@ -1270,6 +1324,9 @@ def run_grids(ctx):
                 if text is not None and back is not None and data_of(back) == cont:
                     grid_roundtrip(ctx, kind, text, None, f"map-{n}-{variant}")
     # a completely empty interior row / trailing rows; pin map with rings 0 and 2 only
+    for text in ("- A B C\n- D E F\n- A A B\n- C C D\n", "A B C D E -\nA B C D E -\nF F F F F -\n", "- - -\nA B C\nD E F\nA A A\n",
+                 "A B\nC D\n- -\n", "- A\n- B\n", "A B -\nC D -\n"):
+        grid_roundtrip(ctx, "cart", text, None, "cart-blank-edge")
     grid_roundtrip(ctx, "cart", "A B\n- -\nC D\n", None, "cart-empty-interior-row")
     grid_roundtrip(ctx, "cart", "A B\nC D\n- -\n", None, "cart-empty-bottom-row")
     grid_roundtrip(ctx, "cart", None, {(0, 0): "A", (1, 0): "B", (0, 2): "C", (1, 2): "D"}, "cart-empty-interior-row-list")
